@@ -236,7 +236,7 @@ CONSTANTS
   Uris = {{"u1"}}
   MaxText = 2
   Dump = FALSE
-INVARIANTS Valid LawsHold FollowingPrecedingConverse TraverseConsistent AllVariantsExtendPlain LevelOrderIsPermutation StringValueCompositional EqualityLaws
+INVARIANTS Valid LawsHold FollowingPrecedingConverse TraverseConsistent AllVariantsExtendPlain LevelOrderIsPermutation StringValueCompositional EqualityLaws EventLaws
 CONSTRAINT TextBound
 CHECK_DEADLOCK FALSE
 """
@@ -563,10 +563,156 @@ def parser_check(prop, tier, seed):
                             "byte encodings: a trivial encoder in the harness; UTF-8 / UTF-16 with BOM only", "character classes enumerated exhaustively; full Unicode only sampled"]}
 
 
+SER_CFG = """SPECIFICATION Spec
+CONSTANTS
+  MaxLen = {maxlen}
+  Alphabet = {{120, 60, 38, 62, 93, 34, 39, 9, 10, 13, 233, 128512}}
+  Dump = TRUE
+INVARIANTS InDomainAlways DumpState
+CHECK_DEADLOCK FALSE
+"""
+
+SER_NAMES = [["", "a"], ["", "b"], ["u1", "a"], ["u2", "c"]]
+
+
+def rich_text(rnd, brackets=False):
+    alpha = [93, 93, 62, 62, 93, 120, 60, 38, 13] if brackets else [120, 60, 38, 62, 93, 34, 39, 9, 10, 13, 233, 0x1F600, 32, 121]
+    return [rnd.choice(alpha) for _ in range(rnd.randrange(1, 7))]
+
+
+def ser_params(rnd, prop, k):
+    """serialisation parameters of job k: C01 always default; C14 every combination over time; C16 token-relevant ones"""
+    if prop == "C01" or (prop == "C16" and k % 4 == 0):
+        return {"cdata": [], "ugt": False, "decl": 0, "indent": False, "suppress": []}
+    p = {"cdata": rnd.sample(SER_NAMES, rnd.choice([0, 1, 1, 2, 4])), "ugt": rnd.random() < 0.5, "decl": rnd.choice([0, 1, 2, 3]),
+         "indent": rnd.random() < 0.45, "suppress": rnd.sample(SER_NAMES, rnd.choice([0, 0, 1, 2]))}
+    if prop == "C16":
+        p["decl"] = 0
+    return p
+
+
+def ser_check(prop, tier, seed):
+    """C01 / C14 / C16: the XML serialiser against XotSerial."""
+    import gen
+    quick = tier == "quick"
+    exe = vlib.build_harness()
+    d = vlib.workdir(f"ser_{prop}")
+    rnd = random.Random(seed)
+    mcs = []
+    if prop in ("C01", "C14"):
+        cfgname = write_cfg(f"gen_{prop}_lex.cfg", LEX_CFG.format(maxlen=5 if quick else 6))
+        mcs.append(mc("MCLex.tla", cfgname, workers=12, timeout=1800, tag=prop + "_lex"))
+        os.remove(os.path.join(vlib.SPEC, cfgname))
+    else:
+        cfgname = write_cfg(f"gen_{prop}_tree.cfg", TREE_CFG.format(maxnode=3 if quick else 4))
+        mcs.append(mc("MCTree.tla", cfgname, workers=12, timeout=3000, tag=prop + "_tree"))
+        os.remove(os.path.join(vlib.SPEC, cfgname))
+    jobs = []
+    what = {"C01": ["roundtrip"], "C14": ["roundtrip"], "C16": ["tokens"]}[prop]
+    counts = {"enumerated_documents": 0, "enumerated_forests": 0, "random": 0}
+    # spec -> code: every <a b="V">T</a> with strings <= 2 over the class alphabet (TLC-enumerated, inside the domain)
+    docs, r_ser = dump_states("MCSer.tla", SER_CFG.format(maxlen=2), prop + "_ser")
+    mcs.append(r_ser)
+    rnd.shuffle(docs)
+    for k, st in enumerate(docs[: (1500 if quick else 50000)]):
+        j = {"st": st, "root": 1, "frag": False, "what": what}
+        j.update(ser_params(rnd, prop, k))
+        jobs.append(j)
+        counts["enumerated_documents"] += 1
+    # C14: every xml:space / mixed-content layout of MCPretty x indentation with each suppress list
+    if prop in ("C14", "C16"):
+        pdocs, r_p = dump_states("MCPretty.tla", "SPECIFICATION Spec\nCONSTANT Dump = TRUE\nINVARIANTS InDomainAlways PrettyReflexive DumpState\nCHECK_DEADLOCK FALSE\n", prop + "_pretty")
+        mcs.append(r_p)
+        for st in pdocs:
+            for sup in ([], [["", "a"]], [["", "r"]]):
+                jobs.append({"st": st, "root": 1, "frag": False, "what": what, "cdata": [], "ugt": False, "decl": 0, "indent": True, "suppress": sup})
+                counts["enumerated_documents"] += 1
+            # and the element-rooted subtree r serialised on its own
+            jobs.append({"st": st, "root": 2, "frag": False, "what": what, "cdata": [], "ugt": False, "decl": 0, "indent": True, "suppress": []})
+    # all small forests (TLC dump of the L1 machine): every doc / element root, parentless or not (C16: subtrees)
+    if prop == "C16":
+        states, r_dump = forest_states(tier, seed, prop)
+        mcs.append(r_dump)
+        rnd.shuffle(states)
+        for k, st in enumerate(states[: (400 if quick else 5200)]):
+            for i, nd in enumerate(st["n"]):
+                if nd["k"] in ("doc", "elem", "text", "comm", "pi"):
+                    j = {"st": st, "root": i + 1, "frag": False, "what": what}
+                    j.update(ser_params(rnd, prop, k))
+                    jobs.append(j)
+                    counts["enumerated_forests"] += 1
+    # code -> spec: random forests with dangerous text, xml:space at any depth, every parameter combination
+    nrand = 500 if quick else 20000
+    for k in range(nrand):
+        f, roots = gen.random_forest(rnd, rnd.choice([4, 8, 14, 24] if quick else [4, 8, 14, 24, 50]), shape=["mixed", "mixed", "chain", "fan"][k % 4], nsrich=(k % 2 == 0), trees=1)
+        for nd in f.n:
+            if nd["k"] == "text":
+                nd["t"] = rich_text(rnd, brackets=(prop == "C14" and k % 2 == 0)) if rnd.random() < 0.8 else nd["t"]
+            if nd["k"] == "attr" and nd["ns"] != gen.XMLNS:
+                nd["t"] = rich_text(rnd)
+            if nd["k"] == "nsn" and nd["u"] and rnd.random() < 0.1:
+                nd["u"] = rnd.choice(["http://x?a=1&b=2", "u v", "u\"q"])
+        root = roots[0]
+        isdoc = f.n[root - 1]["k"] == "doc"
+        wf = isdoc and len([c for c in f.n[root - 1]["c"] if f.n[c - 1]["k"] == "elem"]) == 1 and not any(f.n[c - 1]["k"] == "text" for c in f.n[root - 1]["c"])
+        roots_here = [root]
+        if prop == "C16":
+            roots_here += [i + 1 for i, nd in enumerate(f.n) if nd["k"] == "elem" and nd["p"] != 0][:2]
+        for r in roots_here:
+            j = {"st": f.state(), "root": r, "frag": bool(isdoc and not wf and r == root), "what": what}
+            j.update(ser_params(rnd, prop, k))
+            jobs.append(j)
+            counts["random"] += 1
+    rnd.shuffle(jobs)
+    jp = os.path.join(d, "jobs.ndjson")
+    with open(jp, "w") as fh:
+        for j in jobs:
+            fh.write(json.dumps(j) + "\n")
+    op = os.path.join(d, "out.ndjson")
+    vlib.run_harness(exe, ["ser", "--jobs", jp, "--out", op], timeout=900 if quick else 7200)
+    v = vlib.validate_trace_flat(op, module="TraceSer.tla", cfg="TraceSer.cfg", nshards=14, timeout=1800 if quick else 10000, tag=prop + "_ser")
+    violations, known, other = [], {}, 0
+    for rj in v["rejects"]:
+        if rj["prop"] == "TOOL":
+            raise ToolError(f"generated state rejected as input: {rj['detail']}")
+        if rj["prop"] != prop:
+            other += 1
+            continue
+        if rj["known"]:
+            known.setdefault(rj["known"], 0)
+            known[rj["known"]] += 1
+            continue
+        if len(violations) < 25:
+            ev = json.loads(v["lines"][rj["line"]])
+            sc = {"kind": "ser", "job": {k: ev.get(k) for k in ("st", "root", "cdata", "ugt", "decl", "indent", "suppress", "frag", "what")}}
+            violations.append(vlib.save_replay(prop, sc, rj))
+            log(f"  reject: params={ {k: ev[k] for k in ('cdata','ugt','decl','indent','suppress','frag')} } text={''.join(map(chr, ev['text']))[:160]!r} detail={json.dumps(rj['detail'])[:200]}")
+    kf = {f["id"]: f for f in vlib.load_known()}
+    known_lines = [f"{kid} ({cnt} events): {kf.get(kid, {}).get('what', '')}" for kid, cnt in sorted(known.items())]
+    pcombos = {(tuple(map(tuple, j["cdata"])), j["ugt"], j["decl"], j["indent"], tuple(map(tuple, j["suppress"]))) for j in jobs}
+    distinct = len({json.dumps(j["st"]["n"]) + str(j["root"]) for j in jobs})
+    cov = {
+        "states": sum(r["distinct"] for r in mcs), "transitions": sum(r["generated"] for r in mcs),
+        "traces_validated_against_impl": len(jobs), "evaluations": len(jobs), "distinct_nontrivial": distinct,
+        "rule": "one event per (forest, root, parameter set): serialised by every entry point of the real crate, reparsed; TLC judges round trip / indentation relation / token and event laws; distinct = distinct (forest, root) pairs",
+        "samples": [{"params": {k: jobs[0][k] for k in ("cdata", "ugt", "decl", "indent", "suppress")}, "first_nodes": jobs[0]["st"]["n"][:4]}],
+        "exhaustive": False, "inputs": counts, "parameter_combinations": len(pcombos),
+        "rejections_charged_to_other_properties": other,
+    }
+    import shutil
+    shutil.rmtree(d, ignore_errors=True)
+    return {"violations": violations, "known": known_lines, "coverage": cov,
+            "assumptions": ["TLC 1.8 and the Json/IOUtils community modules", "the reparse uses xot's own parser, which C02 ties to XML's meaning",
+                            "harness state builder and projection", "strings <= 2 over 12 character classes enumerated exhaustively; longer strings and full Unicode sampled"]}
+
+
 CHECKS = {
     "C04": lambda p, t, s: forest_check(p, t, s),
     "C05": lambda p, t, s: forest_check(p, t, s),
     "C06": lambda p, t, s: forest_check(p, t, s),
+    "C01": ser_check,
+    "C14": ser_check,
+    "C16": ser_check,
     "C02": parser_check,
     "C03": parser_check,
     "C17": parser_check,
